@@ -1,0 +1,160 @@
+//! Verification hooks (only compiled with the `verif_hooks` cargo feature).
+//!
+//! * `capture` copies the final [`Graph`] into a thread-local so that an external explorer can
+//!   take it after calling [`crate::generate`].
+//! * `permute` is an iteration-order seam: it sits wherever a hash container is turned into a
+//!   sequence, and lets a harness choose the order (identity when no script is installed).
+//! * `state_machine` lets a harness choose the code generator at run time.
+use std::cell::RefCell;
+
+use crate::graph::{Graph, GraphError};
+use crate::leaf::VariantKind;
+
+#[derive(Debug, Clone, Default, PartialEq, Eq)]
+pub struct StateDump {
+    pub accept: Option<usize>,
+    pub early: Option<usize>,
+    /// (inclusive byte ranges, target state)
+    pub normal: Vec<(Vec<(u8, u8)>, usize)>,
+    pub eoi: Option<usize>,
+}
+
+#[derive(Debug, Clone, Default, PartialEq, Eq)]
+pub struct LeafDump {
+    pub priority: usize,
+    pub display: String,
+    pub skip: bool,
+    pub has_callback: bool,
+}
+
+#[derive(Debug, Clone, Default, PartialEq, Eq)]
+pub struct GraphDump {
+    pub root: usize,
+    pub states: Vec<StateDump>,
+    pub leaves: Vec<LeafDump>,
+    /// `NoUniversalStart`, `EmptyMatch(i)`, `Disambiguation([i, j, ..])`
+    pub errors: Vec<String>,
+}
+
+/// One call of [`permute`]: where, and how many elements were offered.
+#[derive(Debug, Clone, PartialEq, Eq)]
+pub struct SeamCall {
+    pub site: &'static str,
+    pub len: usize,
+}
+
+#[derive(Default)]
+struct Ctl {
+    graph: Option<GraphDump>,
+    seam_log: Vec<SeamCall>,
+    /// (index of the seam call, permutation to apply there)
+    script: Vec<(usize, Vec<usize>)>,
+    state_machine: Option<bool>,
+}
+
+thread_local! { static CTL: RefCell<Ctl> = RefCell::new(Ctl::default()); }
+
+pub(crate) fn capture(graph: &Graph) {
+    let mut d = GraphDump {
+        root: graph.root().index(),
+        ..Default::default()
+    };
+    for s in graph.iter_states() {
+        let sd = graph.get_state(s);
+        d.states.push(StateDump {
+            accept: sd.state_type.accept.map(|l| l.0),
+            early: sd.state_type.early.map(|l| l.0),
+            normal: sd
+                .normal
+                .iter()
+                .map(|(bc, t)| {
+                    (
+                        bc.ranges.iter().map(|r| (*r.start(), *r.end())).collect(),
+                        t.index(),
+                    )
+                })
+                .collect(),
+            eoi: sd.eoi.map(|t| t.index()),
+        });
+    }
+    for l in graph.leaves() {
+        d.leaves.push(LeafDump {
+            priority: l.priority,
+            display: format!("{l}"),
+            skip: matches!(l.kind, VariantKind::Skip),
+            has_callback: l.callback.is_some(),
+        });
+    }
+    for e in graph.errors() {
+        d.errors.push(match e {
+            GraphError::NoUniversalStart => "NoUniversalStart".into(),
+            GraphError::EmptyMatch(l) => format!("EmptyMatch({})", l.0),
+            GraphError::Disambiguation(v) => format!(
+                "Disambiguation({:?})",
+                v.iter().map(|l| l.0).collect::<Vec<_>>()
+            ),
+        });
+    }
+    CTL.with(|c| c.borrow_mut().graph = Some(d));
+}
+
+/// Take the graph captured by the last `generate()` call on this thread.
+pub fn take_graph() -> Option<GraphDump> {
+    CTL.with(|c| c.borrow_mut().graph.take())
+}
+
+/// Reset the seam log and install a script: at the `k`-th seam call (0-based, counted since this
+/// reset) the elements are rearranged so that new[i] = old[perm[i]].
+pub fn seam_reset(script: Vec<(usize, Vec<usize>)>) {
+    CTL.with(|c| {
+        let mut c = c.borrow_mut();
+        c.seam_log.clear();
+        c.script = script;
+    });
+}
+
+/// The seam calls seen since the last [`seam_reset`].
+pub fn seam_log() -> Vec<SeamCall> {
+    CTL.with(|c| c.borrow().seam_log.clone())
+}
+
+pub(crate) fn permute<T>(site: &'static str, v: &mut [T]) {
+    let perm = CTL.with(|c| {
+        let mut c = c.borrow_mut();
+        let k = c.seam_log.len();
+        c.seam_log.push(SeamCall { site, len: v.len() });
+        c.script
+            .iter()
+            .find(|(at, p)| *at == k && p.len() == v.len())
+            .map(|(_, p)| p.clone())
+    });
+    if let Some(perm) = perm {
+        // new[i] = old[perm[i]], in place, by cycles
+        let mut done = vec![false; perm.len()];
+        for start in 0..perm.len() {
+            if done[start] {
+                continue;
+            }
+            let mut i = start;
+            loop {
+                done[i] = true;
+                let j = perm[i];
+                if j == start || done[j] {
+                    break;
+                }
+                v.swap(i, j);
+                i = j;
+            }
+        }
+    }
+}
+
+/// Override the code generator choice (`Some(true)` = state machine, `Some(false)` = tail call,
+/// `None` = whatever the cargo feature says).
+pub fn set_state_machine(choice: Option<bool>) {
+    CTL.with(|c| c.borrow_mut().state_machine = choice);
+}
+
+pub(crate) fn state_machine(default: bool) -> bool {
+    CTL.with(|c| c.borrow().state_machine.unwrap_or(default))
+}
